@@ -386,3 +386,107 @@ func searchOf(v ssa.Value, path string, depth int) bool {
 	}
 	return false
 }
+
+// c09MissingLinkReported (C09.R10 / C08.R10): a rule that reports a missing link reports it on every path.
+//
+// Instances are the branches of the rule functions that establish `<node>.<link> == nil` for one of the link fields
+// the walker writes and whose nil side (the blocks it dominates) contains a report: the rule is then the one that
+// rejects documents the walker could not link there. Every path from the nil side to a return (or out of the region
+// the nil side dominates) must pass a report; a path that leaves silently — an exemption added behind the nil test —
+// lets a document through validation with that link unset.
+func c09MissingLinkReported(c *Ctx, r *RuleResult) {
+	p := c.P
+	fns := p.FuncsIn("validator/rules")
+	if len(fns) == 0 {
+		r.AnchorLost("package validator/rules")
+		return
+	}
+	isLink := map[annot]bool{}
+	for _, a := range wantAnnotations {
+		isLink[a] = true
+	}
+	for _, fn := range fns {
+		if fn.Blocks == nil {
+			continue
+		}
+		reports := reportSites(fn)
+		if len(reports) == 0 {
+			continue
+		}
+		reportBlock := map[*ssa.BasicBlock]bool{}
+		for _, e := range reports {
+			reportBlock[e.Block()] = true
+		}
+		for _, b := range fn.Blocks {
+			if len(b.Instrs) == 0 {
+				continue
+			}
+			ifi, ok := b.Instrs[len(b.Instrs)-1].(*ssa.If)
+			if !ok {
+				continue
+			}
+			cd := normCond(Cond{V: ifi.Cond, True: true})
+			bo, ok := cd.V.(*ssa.BinOp)
+			if !ok || (bo.Op != token.EQL && bo.Op != token.NEQ) {
+				continue
+			}
+			x, y := bo.X, bo.Y
+			if isNilConst(x) {
+				x, y = y, x
+			}
+			if !isNilConst(y) {
+				continue
+			}
+			st, fld, ok := fieldLoadOf(x)
+			if !ok || !isLink[annot{st, fld}] {
+				continue
+			}
+			nilWhenTrue := (bo.Op == token.EQL) == cd.True
+			s := b.Succs[1]
+			if nilWhenTrue {
+				s = b.Succs[0]
+			}
+			if !soleForwardPred(s, b) {
+				continue
+			}
+			// reports that are made only with the link nil
+			any := false
+			for rb := range reportBlock {
+				if s.Dominates(rb) {
+					any = true
+				}
+			}
+			if !any {
+				continue
+			}
+			inst := p.FuncName(fn) + ": " + st + "." + fld + " == nil"
+			seen := reachAvoiding(s, func(x *ssa.BasicBlock) bool { return reportBlock[x] }, nil)
+			var leak *ssa.BasicBlock
+			for _, x := range fn.Blocks {
+				if !seen[x] || reportBlock[x] {
+					continue
+				}
+				if !s.Dominates(x) {
+					leak = x
+					break
+				}
+				if len(x.Instrs) > 0 {
+					if _, isRet := x.Instrs[len(x.Instrs)-1].(*ssa.Return); isRet {
+						leak = x
+						break
+					}
+				}
+			}
+			if leak != nil {
+				pos := ifi.Pos()
+				if pos == token.NoPos {
+					pos = bo.Pos()
+				}
+				r.Fail(pos, p.FuncName(fn), "a path leaves without a report after "+st+"."+fld+" == nil",
+					"the rule reports a missing "+st+"."+fld+" on some paths, but control can leave the nil side (block "+leak.String()+") without passing a report: a document whose "+fld+" link is unset can pass this rule")
+				continue
+			}
+			r.OK(inst, "every path from the nil side to a return passes a report")
+		}
+	}
+}
